@@ -75,11 +75,31 @@ func NumericLooking(t string) bool {
 	if allDigits(t) && t[0] != '0' {
 		return false // canonical decimal that overflows int: plainly unresolvable
 	}
-	c := t[0]
-	if c == '+' || c == '-' {
-		return len(t) > 1 && t[1] >= '0' && t[1] <= '9'
+	// out of domain only if the text is a number in some wider syntax (sign, leading zeros, base prefix, digit
+	// separators, float notation); a text no number parser accepts ("1-", "1x", "1/") is plainly non-numeric
+	if _, err := strconv.ParseInt(t, 0, 64); err == nil {
+		return true
 	}
-	return c >= '0' && c <= '9'
+	if _, err := strconv.ParseUint(t, 0, 64); err == nil {
+		return true
+	}
+	if ne, ok := err2num(t); ok {
+		return ne
+	}
+	return false
+}
+
+// err2num: range errors of the integer parser (syntactically a number, too large) and float syntax count as numeric-looking.
+func err2num(t string) (bool, bool) {
+	if _, err := strconv.ParseInt(t, 0, 64); err != nil {
+		if ne, ok := err.(*strconv.NumError); ok && ne.Err == strconv.ErrRange {
+			return true, true
+		}
+	}
+	if _, err := strconv.ParseFloat(t, 64); err == nil {
+		return true, true
+	}
+	return false, false
 }
 
 type Status int
